@@ -158,6 +158,49 @@ where
         },
     );
     let _ = best;
+    // the identity in EVERY affine representation: the infinity marker set and arbitrary values left in the coordinate slots
+    // (what `as_tuple_mut` / a conversion that does not clear the slots leaves behind): the encodings are the two fixed
+    // identity strings whatever the slots hold, and decode back to the identity
+    {
+        let one = C::K::one();
+        let mut slots: Vec<(C::K, C::K)> = vec![
+            (C::K::zero(), one.clone()),
+            (C::K::zero(), one.neg()),
+            (C::K::zero(), C::K::zero()),
+            (one.clone(), one.clone()),
+            (one.neg(), one.neg()),
+        ];
+        for p in pts.iter().skip(1).take(6).chain(pts[n_sub..].iter().take(8)) {
+            if let Pt::Aff(x, y) = p {
+                slots.push((x.clone(), y.clone()));
+                slots.push((x.clone(), y.neg()));
+                slots.push((C::K::zero(), y.clone()));
+                slots.push((C::K::zero(), y.neg()));
+            }
+        }
+        ctx.sweep(
+            &format!("{}.encode.identity_representations", name),
+            2 * slots.len() as u64,
+            |i| json!({"group": name, "compressed": i % 2 == 0, "slots": [C::showk(&slots[(i / 2) as usize].0), C::showk(&slots[(i / 2) as usize].1)]}),
+            |i| {
+                let (x, y) = &slots[(i / 2) as usize];
+                let compressed = i % 2 == 0;
+                let a = C::identity_with(x, y);
+                let got = guard(|| C::lib_encode(&a, compressed)).map_err(Fail::new)?;
+                let want = zcash::encode(&Pt::<C::K>::Inf, compressed);
+                if got != want {
+                    return Err(Fail::with(format!("{}: the identity, with other values left in its coordinate slots, does not encode to the identity string", name), json!({"got": hexb(&got), "want": hexb(&want)})));
+                }
+                for checked in [true, false] {
+                    match C::lib_decode(&got, compressed, checked) {
+                        Ok(b) if C::pt_of_aff(&b).is_inf() => {}
+                        _ => return Err(Fail::new(format!("{}: decode(encode(identity)) is not the identity", name))),
+                    }
+                }
+                Ok("identity representation")
+            },
+        );
+    }
     // reverse direction: every accepted byte string re-encodes to itself (non-malleability)
     for compressed in [true, false] {
         let fmt = format!("{}.{}", name, if compressed { "compressed" } else { "uncompressed" });
